@@ -415,6 +415,7 @@ void profile_cfg_more(const std::string &prof, uint64_t seed, RunCfg &c, Rng &r)
       if (r.chance(0.6)) c.names.push_back(b + ".");
     }
     c.qtypes = {1, 28, 16, 15};
+    if (r.chance(0.4)) { c.qtypes.push_back(99); c.qtypes.push_back(100); }   // types the library has no name for (legal in queries)
     int f = ARES_FLAG_NOSEARCH | ARES_FLAG_NOALIASES;
     if (r.chance(0.7)) f |= ARES_FLAG_EDNS;
     if (r.chance(0.35)) f |= ARES_FLAG_DNS0x20;
